@@ -1,4 +1,157 @@
 package main
 
-// runThorough is filled in by teeth.go
-var runThorough = func(c *Ctx, pd *propDef) {}
+import (
+	"bufio"
+	"bytes"
+	"fmt"
+	"os"
+	"os/exec"
+	"path/filepath"
+	"sort"
+	"strings"
+	"sync"
+)
+
+// Thorough tier: besides the extra build configurations each property's
+// check loads, the checker is tested for teeth on every run: each tooth is
+// a small source edit re-creating a realistic regression.  It is applied to a
+// scratch copy of the repository (outside /repo and /verif), the property's
+// rules are re-run on the copy in a fresh process, and a NEW failing rule
+// instance naming the expected construct must appear.  Teeth never produce
+// VIOLATION lines about /repo; an edit that no longer applies is skipped.
+
+type tooth struct {
+	prop   string
+	name   string
+	file   string
+	old    string
+	new    string
+	expect string // substring of the new failing key
+}
+
+type toothResult struct {
+	t       tooth
+	status  string // fired | missed | skipped | error
+	newKeys []string
+	detail  string
+}
+
+func runTeeth(c *Ctx, pd *propDef) {
+	var mine []tooth
+	for _, t := range allTeeth {
+		if t.prop == c.Prop {
+			mine = append(mine, t)
+		}
+	}
+	if len(mine) == 0 {
+		return
+	}
+	self, err := os.Executable()
+	if err != nil {
+		c.Note("teeth: cannot locate own executable: " + err.Error())
+		return
+	}
+	base := map[string]bool{}
+	for _, o := range c.Obls {
+		if !o.OK {
+			base[o.Key()] = true
+		}
+	}
+	results := make([]toothResult, len(mine))
+	sem := make(chan struct{}, 8)
+	var wg sync.WaitGroup
+	for i, t := range mine {
+		wg.Add(1)
+		go func(i int, t tooth) {
+			defer wg.Done()
+			sem <- struct{}{}
+			defer func() { <-sem }()
+			results[i] = runTooth(self, c, t, base)
+		}(i, t)
+	}
+	wg.Wait()
+	fired, missed, skipped := 0, 0, 0
+	var rows []interface{}
+	for _, r := range results {
+		switch r.status {
+		case "fired":
+			fired++
+		case "skipped":
+			skipped++
+		default:
+			missed++
+			fmt.Printf("TEETH-MISSED property=%s tooth=%s (%s): %s\n", c.Prop, r.t.name, r.status, r.detail)
+		}
+		sort.Strings(r.newKeys)
+		if len(r.newKeys) > 4 {
+			r.newKeys = r.newKeys[:4]
+		}
+		rows = append(rows, map[string]interface{}{"tooth": r.t.name, "file": r.t.file, "status": r.status, "new_failing_keys": r.newKeys, "detail": r.detail})
+	}
+	fmt.Printf("   teeth: %d applied and detected, %d missed, %d skipped (edit no longer applies)\n", fired, missed, skipped)
+	c.extra["teeth"] = map[string]interface{}{"detected": fired, "missed": missed, "skipped": skipped, "runs": rows,
+		"method": "each tooth is a source edit applied to a scratch copy of /repo; the property's rules are re-run on the copy in a fresh process and must report a new failing rule instance naming the expected construct"}
+}
+
+var runThorough = runTeeth
+
+func runTooth(self string, c *Ctx, t tooth, base map[string]bool) toothResult {
+	res := toothResult{t: t}
+	src := filepath.Join(c.Repo, t.file)
+	b, err := os.ReadFile(src)
+	if err != nil {
+		res.status, res.detail = "skipped", "file not present"
+		return res
+	}
+	if strings.Count(string(b), t.old) != 1 {
+		res.status, res.detail = "skipped", fmt.Sprintf("anchor text occurs %d times", strings.Count(string(b), t.old))
+		return res
+	}
+	dir, err := os.MkdirTemp("", "tcellvet-tooth-")
+	if err != nil {
+		res.status, res.detail = "error", err.Error()
+		return res
+	}
+	defer os.RemoveAll(dir)
+	cp := exec.Command("rsync", "-a", "--exclude", ".git", c.Repo+"/", dir+"/")
+	if out, err := cp.CombinedOutput(); err != nil {
+		res.status, res.detail = "error", "copy failed: "+string(out)
+		return res
+	}
+	if err := os.WriteFile(filepath.Join(dir, t.file), []byte(strings.Replace(string(b), t.old, t.new, 1)), 0o644); err != nil {
+		res.status, res.detail = "error", err.Error()
+		return res
+	}
+	cmd := exec.Command(self, "-prop", t.prop, "-tier", "quick", "-repo", dir, "-verif", c.VerifDir, "-keys")
+	var out bytes.Buffer
+	cmd.Stdout = &out
+	cmd.Stderr = &out
+	_ = cmd.Run()
+	sc := bufio.NewScanner(&out)
+	sc.Buffer(make([]byte, 1<<20), 1<<24)
+	for sc.Scan() {
+		line := sc.Text()
+		if !strings.HasPrefix(line, "KEY ") {
+			continue
+		}
+		k := strings.TrimPrefix(line, "KEY ")
+		if !base[k] {
+			res.newKeys = append(res.newKeys, k)
+		}
+	}
+	for _, k := range res.newKeys {
+		if strings.HasPrefix(k, "LOAD:") || strings.HasPrefix(k, "PANIC:") {
+			res.status, res.detail = "error", "the edited copy did not load: "+k
+			return res
+		}
+	}
+	for _, k := range res.newKeys {
+		if strings.Contains(k, t.expect) {
+			res.status = "fired"
+			return res
+		}
+	}
+	res.status = "missed"
+	res.detail = fmt.Sprintf("expected a new failing key containing %q, got %v", t.expect, res.newKeys)
+	return res
+}
